@@ -149,10 +149,10 @@ func rpmBdb(blobs [][]byte, l bdbLayout) (file []byte, order []int, inline []boo
 			buckets = append(buckets, cur)
 		}
 	}
-	// page numbers: 0 = meta. Buckets first (as libdb allocates them at creation), junk pages and
-	// overflow pages after them.
+	// page numbers: 0 = meta. A fresh database has its buckets first (as libdb allocates them at
+	// creation) and the overflow pages after them; one that has grown has bucket pages anywhere,
+	// the last page included. The buckets keep their relative order (the order of the headers).
 	nb := len(buckets)
-	next := 1 + nb
 	type pageUse struct{ rec, seq int }
 	var ovUse []pageUse
 	per := ps - 26
@@ -174,17 +174,44 @@ func rpmBdb(blobs [][]byte, l bdbLayout) (file []byte, order []int, inline []boo
 			ovUse[i], ovUse[j] = ovUse[j], ovUse[i]
 		}
 	}
+	totalPages := nb + len(ovUse) + l.junkPages
+	isBucket := make([]bool, totalPages+1) // by page number
+	if l.scatter && nb > 0 {
+		chosen := 0
+		if rnd(2) == 0 {
+			isBucket[totalPages] = true // a bucket is the last page of the file
+			chosen = 1
+		}
+		for chosen < nb {
+			pg := 1 + rnd(totalPages)
+			if !isBucket[pg] {
+				isBucket[pg] = true
+				chosen++
+			}
+		}
+	} else {
+		for b := 1; b <= nb; b++ {
+			isBucket[b] = true
+		}
+	}
+	bucketPage := make([]int, 0, nb)
+	var otherPages []int
+	for pg := 1; pg <= totalPages; pg++ {
+		if isBucket[pg] {
+			bucketPage = append(bucketPage, pg)
+		} else {
+			otherPages = append(otherPages, pg)
+		}
+	}
 	junkAt := map[int]bool{}
-	total := len(ovUse) + l.junkPages
-	for j := 0; j < l.junkPages; j++ {
-		junkAt[rnd(total)] = true
+	for len(junkAt) < l.junkPages {
+		junkAt[rnd(len(otherPages))] = true
 	}
 	var junk []int
 	k := 0
-	for slot := 0; k < len(ovUse); slot++ {
+	for slot, pg := range otherPages {
 		if junkAt[slot] {
-			junk = append(junk, next)
-			next++
+			junk = append(junk, pg)
 			continue
 		}
 		u := ovUse[k]
@@ -193,9 +220,9 @@ func rpmBdb(blobs [][]byte, l bdbLayout) (file []byte, order []int, inline []boo
 		for len(r.chain) <= u.seq {
 			r.chain = append(r.chain, 0)
 		}
-		r.chain[u.seq] = next
-		next++
+		r.chain[u.seq] = pg
 	}
+	next := totalPages + 1
 	last := next - 1
 	file = make([]byte, (last+1)*ps)
 	pageHdr := func(pg, prev, nxt, entries, hf int, typ byte) {
@@ -231,7 +258,7 @@ func rpmBdb(blobs [][]byte, l bdbLayout) (file []byte, order []int, inline []boo
 	}
 	// bucket pages
 	for b, members := range buckets {
-		pg := 1 + b
+		pg := bucketPage[b]
 		typ := byte(2)
 		if l.sorted {
 			typ = 13
